@@ -770,7 +770,9 @@ fn drive(run: &mut Run, cfg: &Value, rng: &mut Rng, len: usize, out: &mut Out) {
         let st = match rng.below(100) {
             0..=29 => {
                 let amt = if pkt_max > 0 && rng.chance(1, 4) { *rng.pick(&[pkt_max, pkt_max + 1, pkt_max - 1]) } else { rng.range(0, 6) };
-                let mut a = json!({"denom":d,"ch":ch,"amt":amt,"to":format!("remote{}", rng.below(3))});
+                // (receivers are opaque strings of the other chain: mixed case, hex, anything)
+                let to = match rng.below(5) { 0 => "Remote1".to_string(), 1 => "0x5aAeb6053F3E94C9b9A09f33669435E7Ef1BeAed".to_string(), _ => format!("remote{}", rng.below(3)) };
+                let mut a = json!({"denom":d,"ch":ch,"amt":amt,"to":to});
                 if rng.chance(1, 3) { a["timeout"] = json!(rng.range(1, 500)); }
                 if rng.chance(1, 3) { a["memo"] = json!(format!("memo{}", rng.below(3))); }
                 json!({"act":"transfer","by":rng.pick(&USERS),"args":a})
@@ -791,7 +793,7 @@ fn drive(run: &mut Run, cfg: &Value, rng: &mut Rng, len: usize, out: &mut Out) {
                 }
             }
             73..=80 => json!({"act":"tokfail","by":"env","args":{"on":rng.chance(1,2)}}),
-            81..=88 => json!({"act":"allow","by":rng.pick(&["gov","gov","gov2","u1"]),"args":{"gas":*rng.pick(&[-1i64,100,200,800,1000,GAS_TOP])}}),
+            81..=88 => json!({"act":"allow","by":rng.pick(&["gov","gov","gov2","u1"]),"args":{"gas":*rng.pick(&[-1i64,0,100,200,800,1000,GAS_TOP])}}),
             89..=92 => json!({"act":"update_admin","by":rng.pick(&["gov","gov2","u1"]),"args":{"new":rng.pick(&["gov","gov2","gov2","none"])}}),
             93..=94 => json!({"act":"migrate","by":"creator","args":{"gas":*rng.pick(&[-1i64,300,50])}}),
             96 => json!({"act":"donate","by":rng.pick(&USERS),"args":{"denom":d,"amt":rng.range(0,4)}}),
